@@ -310,8 +310,8 @@ fn run_case(seed: u64, lean: &mut Lean, hist: &mut BTreeMap<String, u64>, sample
         if let Some(cmd) = cmd {
             let m = lean.ask(&format!("kv.op {cmd}"));
             if let Some(real) = &real {
-                if &m != real { fail!("model-vs-impl", "{op:?}: model {} vs real {}", clip(&m), clip(real)); }
-            } else if m != "unit" { fail!("model-vs-impl", "{op:?}: model says {m}"); }
+                if !no_model() && &m != real { fail!("model-vs-impl", "{op:?}: model {} vs real {}", clip(&m), clip(real)); }
+            } else if !no_model() && m != "unit" { fail!("model-vs-impl", "{op:?}: model says {m}"); }
         }
         // internal observable compared as a relation only
         if db.visible_seqno() > db.seqno() { fail!("impl-vs-oracle", "visible seqno {} above seqno counter {}", db.visible_seqno(), db.seqno()); }
@@ -323,7 +323,7 @@ fn run_case(seed: u64, lean: &mut Lean, hist: &mut BTreeMap<String, u64>, sample
         let orc = pairs_str(refm[k].iter());
         if real_s != orc { fail!("impl-vs-oracle", "final content of ks{k} differs from the sorted map"); }
         let m = lean.ask(&format!("kv.op scan {} U U", ids[k]));
-        if m != real_s { fail!("model-vs-impl", "final content of ks{k}: model {} vs real {}", clip(&m), clip(&real_s)); }
+        if !no_model() && m != real_s { fail!("model-vs-impl", "final content of ks{k}: model {} vs real {}", clip(&m), clip(&real_s)); }
         for (key, v) in &real {
             match kss[k].get(key) { Ok(Some(x)) if &*x == &v[..] => {}, other => fail!("impl-vs-oracle", "point read of {} disagrees with the scan: {:?}", hex(key), other.map(|o| o.map(|x| x.len()))) }
         }
